@@ -268,6 +268,23 @@ def gc2_programs(rng, count, plans=None, prefix="q"):
     return progs
 
 
+def nogc_gc2_programs(rng, count):
+    """The legitimate `false`: on NoGC (`collects_garbage = false`) the trigger refuses every user request, nobody blocks,
+    no request is made (`en=0`, `false,0,…`): the only situation in which a requester may come back unblocked."""
+    progs = []
+    for i in range(count):
+        L = ["bind 1", "bind 2"]
+        for k in range(30):
+            L.append(f"alloc {k % 3} {k + 1} 1 {rng.choice([16, 512])} 8 0 Default {k % 8}")
+        for r in range(4):
+            ma, mb = rng.sample(range(3), 2)
+            L += [f"gc2 {ma} {mb} {r % 2} {(r + i) % 2} {rng.choice([0, 500])} {rng.choice([0, 500])} 0 {r % 2}", "events"]
+        L += ["gc 0 1", f"gcn 1 1 0:0:0 1:{rng.choice([0, 100])}:1 2:50:0", "events"]
+        progs.append(Prog(f"n{i}-NoGC-w{1 + i % 2}", "NoGC", 1 + i % 2, L, yseed=rng.randrange(1 << 20), tags={"gc2", "gc2-refused"},
+                          watchdog=25))
+    return progs
+
+
 def gen_programs(rng, tier, want_fork=False, plans=None, count=None):
     progs = []
     plans = plans or ALL_PLANS
